@@ -99,6 +99,14 @@ def main():
     tasks.append((hand, 0, 99, 1))
     tasks.append((hand, 1, 1, 1))
     tasks.append((hand, 2, 1, 2))
+    # the copy family: every thread works on its own COPY of one configured prototype (encoder, decoder with an open message, status)
+    for c in ("enccopy", "deccopy", "statuscopy"):
+        tasks.append(((c, c), 0, 99, 1))
+        tasks.append(((c, c), 1, 1, 1))
+        tasks.append(((c, c), 2, 1, 1))
+        if tier != "quick":
+            tasks.append(((c, c), 1, 2, 8))
+            tasks.append(((c, c, c), 1, 1, 4))
     if tier != "quick":
         tasks.append((hand, 1, 2, 16))
         tasks.append((("deccont", "consume", "consume"), 1, 1, 8))
